@@ -188,8 +188,7 @@ pub fn leaves() -> Vec<Ty> {
 pub fn leaves_reduced() -> Vec<Ty> {
     vec![
         Ty::Prim("u8"),
-        Ty::Prim("u64"),
-        Ty::Prim("f32"),
+        Ty::Prim("f64"),
         Ty::Prim("string"),
         Ty::Prim("error-context"),
         Ty::Own,
